@@ -74,7 +74,19 @@ func (m *Machine) handleMethods(fr *frame, o *fmtOut, t types.Type, v value, ver
 					return true
 				}
 			}
-			s := m.call(fr, token.NoPos, fn, []value{v})
+			// fmt guards the call: a panicking Error/String method is reported in
+			// the output, it does not take the formatting call down
+			s, pv, panicked := m.guardedCall(fr, fn, v)
+			if panicked {
+				o.str("%!" + string(verb) + "(PANIC=" + name + " method: ")
+				if pi, ok := pv.(iface); ok {
+					m.printValue(fr, o, pi.t, pi.v, 'v', fmtFlags{}, 1)
+				} else {
+					o.str("?")
+				}
+				o.str(")")
+				return true
+			}
 			if verb == 'q' {
 				cs, ok := s.(string)
 				if !ok {
@@ -88,6 +100,19 @@ func (m *Machine) handleMethods(fr *frame, o *fmtOut, t types.Type, v value, ver
 		}
 	}
 	return false
+}
+
+func (m *Machine) guardedCall(fr *frame, fn *ssa.Function, v value) (res value, pv value, panicked bool) {
+	defer func() {
+		if r := recover(); r != nil {
+			tp, ok := r.(targetPanic)
+			if !ok {
+				panic(r)
+			}
+			pv, panicked = tp.v, true
+		}
+	}()
+	return m.call(fr, token.NoPos, fn, []value{v}), nil, false
 }
 
 type fmtFlags struct {
